@@ -28,6 +28,14 @@ func funcKey(fn *ssa.Function) (string, string) {
 		pkg = obj.Pkg().Path()
 	}
 	name := fn.Name()
+	if par := fn.Parent(); par != nil {
+		pp, pk := funcKey(par)
+		suffix := name
+		if i := strings.LastIndex(name, "$"); i >= 0 {
+			suffix = name[i:]
+		}
+		return pp, pk + suffix
+	}
 	if recv := fn.Signature.Recv(); recv != nil {
 		rt := recv.Type()
 		if p, ok := rt.(*types.Pointer); ok {
@@ -170,7 +178,11 @@ func (fr *Frame) execCall(v ssa.Value, cc *ssa.CallCommon, ins ssa.Instruction) 
 		fr.callStatic(v, fn, fr.callArgs(cc), cc, ins, hint)
 		return
 	}
-	// dynamic call through a function value
+	// dynamic call through a function value: call-site clauses may name it "dyncall" or "functype:<pkg>.<Type>"
+	fr.callsiteObligations("dyncall", sig, nil, fr.callArgs(cc), ins)
+	if n, ok := types.Unalias(cc.Value.Type()).(*types.Named); ok && n.Obj().Pkg() != nil {
+		fr.callsiteObligations("functype:"+n.Obj().Pkg().Path()+"."+n.Obj().Name(), sig, nil, fr.callArgs(cc), ins)
+	}
 	if ci := fr.closureOf(cc.Value); ci != nil {
 		res := fr.inlineCall(ci.fn, fr.callArgs(cc), ci, ins)
 		fr.setResults(v, res, sig)
@@ -547,11 +559,10 @@ func (fr *Frame) applyGhost(env *Env, g GhostUpdate) {
 		vc.sess.fatalf("ghost update %s: %v", g.Text, err)
 	}
 	name := "ghost_" + g.Var
-	gt, err := env.resolveType(gv.Type)
+	_, srt, err := env.ghostType(gv)
 	if err != nil {
 		vc.sess.fatalf("ghost var %s: %v", g.Var, err)
 	}
-	srt := env.sortOfSpecType(gv.Type, gt)
 	if g.Idx != nil {
 		idx, err := env.eval(g.Idx)
 		if err != nil {
@@ -975,8 +986,8 @@ func (fr *Frame) callModifies(cc *ssa.CallCommon, heaps map[string]string) bool 
 			gv := vc.sess.specs.Ghosts[g.Var]
 			if gv != nil {
 				env := fr.specEnv(fr.cur, fr.cur)
-				gt, _ := env.resolveType(gv.Type)
-				heaps["ghost_"+g.Var] = env.sortOfSpecType(gv.Type, gt)
+				_, gs, _ := env.ghostType(gv)
+				heaps["ghost_"+g.Var] = gs
 			}
 		}
 		return false
